@@ -95,7 +95,8 @@ fn has_nested(dt: &DataType, pred: &dyn Fn(&DataType) -> bool) -> bool {
 /// All single-deviation layouts that apply to `dt` (the layout menu of DESIGN.md 3.4).
 pub fn layouts_1(dt: &DataType) -> Vec<Layout> {
     let mut v = vec![Layout::compact()];
-    for (p, q) in [(1, 0), (3, 1), (8, 0), (9, 1), (63, 0), (64, 1), (65, 0)] {
+    // (0, 2): offset 0 but shorter than the buffers - a different class from a non-zero offset
+    for (p, q) in [(1, 0), (0, 2), (3, 1), (8, 0), (9, 1), (63, 0), (64, 1), (65, 0)] {
         v.push(Layout { slice: Some((p, q)), ..Default::default() });
     }
     v.push(Layout { all_valid_buf: true, ..Default::default() });
